@@ -1065,6 +1065,9 @@ class CircuitTemplate(AbstractBaseTemplate):
         net = self.circuits if self.circuits else self.nodes
         net_node = net[node[0]]
         if isinstance(net_node, CircuitTemplate):
+            # write into a copy: the same sub-circuit object may be registered under several names
+            net_node = deepcopy(net_node)
+            net[node[0]] = net_node
             net_node.add_node_template(node[1:], template=template)
         else:
             self.nodes[node[0]] = template
